@@ -28,7 +28,8 @@ LEVEL_TEXT = ("All digraphs on up to 4 statements (65536 for n=4) are crossed wi
 LEVEL_NOTE = "Trusted: the reference graph checker (DFS cycle test, per-phase id sets)."
 
 EXTRA = ["none", "dangling", "cross"]
-SWITCH = ["none", "existing", "missing"]
+SWITCH = ["none", "existing", "missing", "missing-prefix", "missing-joined", "missing-empty"]
+MISSING_TARGETS = {"missing": "zz", "missing-prefix": "p", "missing-joined": "p0, p1", "missing-empty": ""}
 FLAGS = ["none", "one", "two-in-one-phase", "two-identical-in-one-phase", "one-per-phase"]
 
 
@@ -53,7 +54,7 @@ def ref_wellformed(n, edges, extras, switch, flags):
         return True
     if not all(visit(i) for i in range(n)):
         return False, "cycle"
-    if switch == "missing":
+    if switch.startswith("missing"):
         return False, "missing-phase"
     if flags in ("two-in-one-phase", "two-identical-in-one-phase"):
         return False, "flag-redefined"
@@ -70,7 +71,8 @@ def build_method(n, edges, extras, switch, flags):
         elif extras[i] == "cross":
             d.append("q0")
         if i == n - 1 and switch != "none":
-            stmts.append(SwitchPhase("p1" if switch == "existing" else "zz", id="s%d" % i, depends_on=d))
+            stmts.append(SwitchPhase("p1" if switch == "existing" else MISSING_TARGETS[switch], id="s%d" % i,
+                                     depends_on=d))
         elif i == 0 and flags != "none":
             stmts.append(Assign(id="s0", assignee="<cond>c", assignee_subscript=(), expression=True, depends_on=d))
         elif i == 1 and flags in ("two-in-one-phase", "two-identical-in-one-phase"):
@@ -189,7 +191,7 @@ def cases(tier):
         if tier == "quick":
             combos = [("none", "none"), ("existing", "one-per-phase")] if mask % 4 == 0 else [("none", "none")]
         else:
-            combos = [(sw, fl) for sw in SWITCH for fl in FLAGS]
+            combos = [(sw, fl) for sw in SWITCH[:3] for fl in FLAGS]
         for sw, fl in combos:
             yield n, mask, edges, ("none",) * 4, sw, fl
         if tier == "thorough":
@@ -200,7 +202,7 @@ def cases(tier):
 
 
 def bounds(tier):
-    return {"n<=3": "all 2^(n*n) digraphs x 3^n extra-edge tuples x 3 switch targets x 5 flag patterns",
+    return {"n<=3": "all 2^(n*n) digraphs x 3^n extra-edge tuples x 6 switch targets (none, existing, 4 missing ones incl. a prefix of / the joined / the empty name) x 5 flag patterns",
             "n=4": "all 65536 digraphs x " + ("(no extras; switch/flags on every 4th graph)" if tier == "quick" else
                                               "3 switch targets x 4 flag patterns + one dangling/cross edge"),
             "consumers": "interpreter (2 steps) + Python generator on every accepted method; Fortran generator for n<=3"}
